@@ -738,6 +738,18 @@ class Models:
                     kd = kd[0]
                     ex.run.trace.append(Event(name, None, [v], 'ret'))
                 return Sym(kd, P.ufn(f'{v.kind.name}_{name}', [v.kind.sort()], kd.sort())(v.t))
+            pspec = getattr(mod, 'U_PURE_METHODS', {}).get(v.kind.name, {})
+            if name in pspec:
+                # pure method: a function of the receiver; object arguments must be the same object at every call site
+                kd = pspec[name]
+
+                def pcall(ex_, a, k, kd=kd, name=name):
+                    seen = ex_.run.ghost.setdefault('_pure_args', {})
+                    sig = tuple(x.addr if isinstance(x, Ref) else repr(x) for x in list(a) + list(k.values()))
+                    if seen.setdefault((v.kind.name, name), sig) != sig:
+                        raise OutOfSubset(f'pure method {v.kind.name}.{name} called with different arguments')
+                    return Sym(kd, P.ufn(f'{v.kind.name}_{name}', [v.kind.sort()], kd.sort())(v.t))
+                return Builtin(f'{v.kind.name}.{name}', pcall)
             mspec = getattr(mod, 'U_METHODS', {}).get(v.kind.name, {})
             if name in mspec:
                 kd = mspec[name]
